@@ -16,6 +16,12 @@ TraceDoubleOf(x) ==
   ELSE IF \E i \in 1..Len(Dbl) : Dbl[i].x = x THEN Dbl[CHOOSE i \in 1..Len(Dbl) : Dbl[i].x = x].y
   ELSE [t |-> "nodouble"]
 
+\* the number jawk holds for a lexeme it reads as a double: a whole double inside (-2^63, 2^64) becomes that integer exactly (From<f64>)
+JawkDoubleOf(x) ==
+  IF SelfDouble(x) THEN x
+  ELSE IF \E i \in 1..Len(Dbl) : Dbl[i].x = x THEN Dbl[CHOOSE i \in 1..Len(Dbl) : Dbl[i].x = x].yi
+  ELSE [t |-> "nodouble"]
+
 \* is the decimal x exactly a double?  integers below 10^15 are; otherwise the harness's table says
 ExactDouble(x) == (IsIntegral(x) /\ Magnitude(x) <= 15) \/ (\E i \in 1..Len(Dbl) : Dbl[i].x = x /\ Dbl[i].ex)
 
